@@ -192,6 +192,107 @@ func checkC11(R *Run) {
 		R.check(enc && dec, "charmap-pair", "GetFileNameList encodes / ReadPath decodes", "-", "listed names are encoded with txtEncoder, request paths decoded with txtDecoder", "the listing no longer encodes names with txtEncoder or ReadPath no longer decodes with txtDecoder: a listed name would not address the entry it names")
 	}
 
+	// ---- charmap-pair, second half: every client-supplied component of the path ReadPath returns has been decoded
+	if g := R.mustFn("hotline.ReadPath"); g != nil {
+		isDecode := func(c *ssa.Call) bool {
+			n := calleeName(&c.Call)
+			if !strings.HasSuffix(n, "encoding.Decoder).String") && !strings.HasSuffix(n, "encoding.Decoder).Bytes") {
+				return false
+			}
+			gn, _ := globalName(c.Call.Args[0])
+			return gn == "hotline.txtDecoder"
+		}
+		nRet := 0
+		raw := ""
+		for _, ret := range returnsOf(g) {
+			v := retValue(ret, 0)
+			if sv, isC := constString(v); isC && sv == "" {
+				continue
+			}
+			nRet++
+			F := &Flow{P: P, Call: func(c *ssa.Call, idx int) ([]ssa.Value, bool) {
+				if idx == -2 {
+					// a call that fills a local through its address (fp.Write(filePath)): the local holds what was passed in
+					return callArgsFlat(&c.Call), true
+				}
+				if isDecode(c) {
+					return nil, true
+				}
+				return callArgsFlat(&c.Call), true
+			}, Visit: func(x ssa.Value) bool {
+				if c, ok := x.(*ssa.Call); ok && isDecode(c) {
+					return false
+				}
+				if x == ssa.Value(g.Params[1]) {
+					raw = "the path items (filePath)"
+					return false
+				}
+				if x == ssa.Value(g.Params[2]) {
+					raw = "the file name (fileName)"
+					return false
+				}
+				return true
+			}}
+			F.Back(v)
+		}
+		R.check(nRet > 0 && raw == "", "charmap-pair", "hotline.ReadPath: every client component decoded", P.pos(g.Pos()), "path items and file name pass through txtDecoder before they are returned", "ReadPath returns "+raw+" without passing them through txtDecoder: a folder or file listed with a non-ASCII name cannot be addressed by the name the listing shows")
+	}
+
+	// ---- wrapper-stale: a fileWrapper computes its four paths when it is built; after Move / Delete they name
+	// nothing (or the place the file left), so no further method of the same wrapper may run
+	R.rule("wrapper-stale", "typestate of *fileWrapper: after Move or Delete has been called on a wrapper, no other method of that same wrapper value is reachable in the function (its paths still name the old location: a fork written through it lands under the old name and is orphaned)")
+	nMoves := 0
+	for _, fn := range P.Funcs {
+		if fn.Pkg == nil || fn.Pkg.Pkg.Path() == cmdPath {
+			continue
+		}
+		if fn.Signature.Recv() != nil && typeName(derefType(fn.Params[0].Type())) == "hotline.fileWrapper" {
+			continue // the wrapper's own methods
+		}
+		for _, f := range withAnons(fn) {
+			for _, ci := range callsIn(f) {
+				m := ci.Common()
+				mn := calleeName(m)
+				if mn != "(*hotline.fileWrapper).Move" && mn != "(*hotline.fileWrapper).Delete" {
+					continue
+				}
+				nMoves++
+				recv := cellOf(m.Args[0])
+				construct := fmt.Sprintf("%s: %s #%d", fname(f), sed(mn), nCreateIn(f, ci))
+				R.analysed(fname(f))
+				after := reachableFrom(ci.Block(), nil)
+				var stale ssa.Instruction
+				for _, cj := range callsIn(f) {
+					if cj == ci {
+						continue
+					}
+					c := cj.Common()
+					n := calleeName(c)
+					if !strings.HasPrefix(n, "(*hotline.fileWrapper).") || len(c.Args) == 0 || cellOf(c.Args[0]) != recv {
+						continue
+					}
+					later := false
+					if cj.Block() == ci.Block() {
+						later = instrIndex(cj.(ssa.Instruction)) > instrIndex(ci.(ssa.Instruction)) || inLoop(ci.Block())
+					} else {
+						later = after[cj.Block()]
+					}
+					if later {
+						stale = cj.(ssa.Instruction)
+					}
+				}
+				pos := P.ipos(ci)
+				what := ""
+				if stale != nil {
+					pos = P.ipos(stale)
+					what = calleeName(stale.(ssa.CallInstruction).Common())
+				}
+				R.check(stale == nil, "wrapper-stale", construct, pos, "no use of the wrapper afterwards", "the wrapper is used again ("+what+") after it was moved / deleted: its paths still name the old location")
+			}
+		}
+	}
+	R.floor("wrapper-stale", 3)
+
 	// ---- ignore-both
 	if g := R.mustFn("hotline.GetFileNameList"); g != nil {
 		R.analysed(fname(g))
